@@ -158,6 +158,10 @@ func checkC29(c *Check) {
 					rd := newScriptedReader(d.Doc, sched)
 					rd.failAt = i
 					rd.failHow = how
+					errName := "a custom error"
+					if (i+j)%2 == 1 {
+						rd.failErr, errName = io.ErrUnexpectedEOF, "io.ErrUnexpectedEOF"
+					}
 					var err error
 					p, hung := runWithWatchdog(20*time.Second, func() { err = rc.f(rd) })
 					if len(rd.Calls) <= i {
@@ -166,8 +170,8 @@ func checkC29(c *Check) {
 					c.Count(fmt.Sprint(rc.name, hex.EncodeToString(d.Doc), sched, i, how), i > 0)
 					c.AddTraces(1)
 					if p != nil || hung || err == nil {
-						c.Violation(fmt.Sprintf("%s on %s document %x (reads %v): Read call #%d failed with a non-EOF error (delivering %s of the requested data with it) but the call returned err=%v panic=%v hang=%v",
-							rc.name, d.Format, d.Doc, sched, i+1, how, err, p, hung),
+						c.Violation(fmt.Sprintf("%s on %s document %x (reads %v): Read call #%d failed with a non-EOF error (%s, delivering %s of the requested data with it) but the call returned err=%v panic=%v hang=%v",
+							rc.name, d.Format, d.Doc, sched, i+1, errName, how, err, p, hung),
 							map[string]interface{}{"kind": "read-fault", "entry": rc.name, "doc": hex.EncodeToString(d.Doc), "schedule": sched, "fail_at": i, "delivered": how})
 					}
 				}
